@@ -289,7 +289,9 @@ pub fn run_thread(tid: usize, ops: &[Vec<i64>], shared: &Arc<AbiConnection<dyn S
             }
             #[cfg(not(simconc_std))]
             "lib" => match LIB_PATH.get() {
-                Some(p) => {
+                Some(p0) => {
+                    // two byte-identical copies of the plugin under different paths: each is a library of its own
+                    let p = &if a % 2 == 1 { format!("{}.copy.so", p0) } else { p0.clone() };
                     let c = AbiConnection::<dyn AdderInterface>::load_shared_library(p).expect("load_shared_library");
                     let cell = Arc::new(AtomicU64::new(0));
                     let r1 = c.add_simple(b as u32, 2);
